@@ -256,10 +256,18 @@ fn check_case(report: &mut Report, case: &Case, verbose: bool) {
             } else if let Some(back) = back {
                 let ex = rel_err(&back.position, &setup.start);
                 let ev = rel_err(&back.velocity, &case.momentum);
-                // conditioning of the map grows with the scales of F
-                let tol = 1e-8;
-                if !(ex <= tol && ev <= tol) {
-                    report.violation(sig("not_time_reversible"), format!("forward={forward}: back position err {ex:e} velocity err {ev:e}"), replay.clone());
+                // conditioning of the map grows with the scales of F and the curvature of the density: measure how much
+                // a relative perturbation of 1e-9 of the intermediate position moves the result and allow rounding
+                // errors (a few hundred ulp in the intermediate state) amplified by that factor
+                let pert: Vec<f64> = end.position.iter().enumerate().map(|(i, x)| x * (1.0 + if i % 2 == 0 { 1e-9 } else { -1e-9 })).collect();
+                let (sx, sv) = match h.leapfrog(math, &pert, &end.velocity, !forward, 1e300)? {
+                    (_, Some(b2)) => (rel_err(&b2.position, &back.position) / 1e-9, rel_err(&b2.velocity, &back.velocity) / 1e-9),
+                    _ => (0.0, 0.0),
+                };
+                let (tol_x, tol_v) = (1e-8 + 500.0 * f64::EPSILON * sx, 1e-8 + 500.0 * f64::EPSILON * sv);
+                report.set("max_reversibility_amplification", json!(sx.max(sv)));
+                if !(ex <= tol_x && ev <= tol_v) {
+                    report.violation(sig("not_time_reversible"), format!("forward={forward}: back position err {ex:e} (tolerance {tol_x:e}) velocity err {ev:e} (tolerance {tol_v:e})"), replay.clone());
                 }
             }
         }
@@ -499,16 +507,132 @@ fn exact_normal_case(report: &mut Report, seed: u64, idx: u64) {
     }
 }
 
+// ───────────────────── transformations produced by adaptation ───────────────
+
+/// The transformations the sampler builds itself (gradient-based initial scales, window estimates, clamped
+/// estimates on extremely scaled coordinates) are bijections too: with the scales in force for a draw,
+/// x = std * y + mean, grad_y = std * grad_x and std * inv_std = 1 on every reported point.
+fn adapted_case(report: &mut Report, seed: u64, idx: u64) {
+    use crate::chains::{Preset, chain_on, start_point};
+    use crate::dens::Logged;
+    use serde_json::Value as J;
+    report.eval();
+    let mut rng = HRng::new(seed).fork(0xADA97 + idx);
+    let preset = if idx % 2 == 0 { Preset::DiagNuts } else { Preset::DiagMclmc };
+    let d = 1 + rng.below(6) as usize;
+    // scales: ordinary, or with coordinates beyond the documented clamp of the estimate (1e-10 .. 1e10)
+    let extreme = (idx / 2) % 3;
+    let sigma: Vec<f64> = (0..d)
+        .map(|i| match (extreme, i % 2) {
+            (1, 0) => 10f64.powf(rng.range(10.5, 14.0)),
+            (2, 0) => 10f64.powf(rng.range(-14.0, -10.5)),
+            _ => rng.log_range(1e-3, 1e3),
+        })
+        .collect();
+    let mu: Vec<f64> = (0..d).map(|i| sigma[i] * rng.range(-3.0, 3.0)).collect();
+    let target = Target::Diag { mu, sigma: sigma.clone() };
+    let start = start_point(&target, &mut rng);
+    let mut patches: Vec<(&str, J)> = vec![
+        ("num_tune", json!(120)),
+        ("num_draws", json!(10)),
+        ("store_transformed", json!(true)),
+        ("store_unconstrained", json!(true)),
+        ("store_gradient", json!(true)),
+        ("adapt_options.early_mass_matrix_switch_freq", json!(5)),
+        ("adapt_options.mass_matrix_switch_freq", json!(12)),
+    ];
+    if preset.is_nuts() {
+        patches.push(("maxdepth", json!(6)));
+    }
+    let replay = json!({"adapted": true, "seed": seed, "idx": idx});
+    let Ok((mut chain, _)) = chain_on(preset, &patches, Logged::new(target, false), rng.next_u64()) else {
+        report.inconclusive("adapted: settings rejected");
+        return;
+    };
+    if chain.set_position(&start).is_err() {
+        report.inconclusive("adapted: set_position failed");
+        return;
+    }
+    let Some(mut pre) = chain.scales() else {
+        report.inconclusive("adapted: no scales");
+        return;
+    };
+    let (mut n_ids, mut n_clamped) = (0u64, 0u64);
+    for dd in 0..130u64 {
+        let o = match crate::util::guard(|| chain.draw()) {
+            Ok(Ok(o)) => o,
+            _ => {
+                report.inconclusive("adapted: draw failed");
+                return;
+            }
+        };
+        let post = chain.scales().unwrap();
+        if post.id != pre.id {
+            n_ids += 1;
+        }
+        for i in 0..d {
+            if !((post.stds[i] * post.inv_stds[i] - 1.0).abs() <= 1e-9) {
+                report.violation(
+                    format!("C02:{}:adapted_transformation_inverse_scale_inconsistent", preset.name()),
+                    format!("draw {dd}: coordinate {i} (sigma {:e}): std {:e} x inv_std {:e} = {:e}", sigma[i], post.stds[i], post.inv_stds[i], post.stds[i] * post.inv_stds[i]),
+                    replay,
+                );
+                return;
+            }
+            if post.stds[i] <= 1.0000001e-10 || post.stds[i] >= 0.9999999e10 {
+                n_clamped += 1;
+            }
+        }
+        let want_logdet: f64 = post.inv_stds.iter().map(|v| v.ln()).sum();
+        if !((post.logdet - want_logdet).abs() <= 1e-9 * (1.0 + want_logdet.abs())) {
+            report.violation(format!("C02:{}:adapted_transformation_logdet", preset.name()), format!("draw {dd}: logdet {} vs sum ln inv_std {want_logdet}", post.logdet), replay);
+            return;
+        }
+        if let (Some(y), Some(x)) = (o.vec("transformed_position"), o.vec("unconstrained_draw")) {
+            let fits = |s: &crate::chains::Scales| (0..d).all(|i| (s.stds[i] * y[i] + s.mean[i] - x[i]).abs() <= 1e-9 * (x[i].abs() + s.mean[i].abs() + (s.stds[i] * y[i]).abs()));
+            if !(fits(&pre) || fits(&post)) {
+                report.violation(
+                    format!("C02:{}:adapted_transformation_not_a_bijection", preset.name()),
+                    format!("draw {dd}: x {x:?} is not std * y + mean for y {y:?} with stds {:?} / mean {:?} (inv_stds {:?})", pre.stds, pre.mean, pre.inv_stds),
+                    replay,
+                );
+                return;
+            }
+            report.count("adapted_points_checked", 1);
+        }
+        if let (Some(gy), Some(gx)) = (o.vec("transformed_gradient"), o.vec("gradient")) {
+            let fits = |s: &crate::chains::Scales| (0..d).all(|i| (s.stds[i] * gx[i] - gy[i]).abs() <= 1e-9 * gy[i].abs().max(1e-300));
+            if !(fits(&pre) || fits(&post)) {
+                report.violation(
+                    format!("C02:{}:adapted_transformation_gradient_pull_back", preset.name()),
+                    format!("draw {dd}: grad_y {gy:?} is not std * grad_x for grad_x {gx:?}, stds {:?}", pre.stds),
+                    replay,
+                );
+                return;
+            }
+        }
+        pre = post;
+    }
+    report.count("adapted_transformations_seen", n_ids);
+    report.count("adapted_clamped_scales_seen", n_clamped);
+    let mut h = Fnv::new();
+    h.str("adapted").str(preset.name()).u64(extreme).u64(d as u64).u64((n_clamped > 0) as u64);
+    report.nontrivial(h.finish());
+}
+
 pub fn run(args: &Args, report: &mut Report) {
     report.rule = "cases = dims {1,2,3,5,8,16,33,64} x kinetic kinds {Euclidean, ExactNormal, Microcanonical} x 6 target families x \
         random diagonal / low-rank (rank 0..d) transformations, start, momentum, step size, both directions: single step vs dense \
         reference, forward+backward = identity, finite-difference Jacobian determinant (d<=5), transformation consistency; plus \
-        energy-error order cases and ExactNormal-on-Gaussian cases; distinct = (kind, transformation kind, dim, target family)".into();
+        energy-error order cases and ExactNormal-on-Gaussian cases; transformations built by the sampler's own adaptation in real \
+        chains (ordinary scales and scales beyond the clamp of the estimate) checked as bijections on every reported point; distinct = (kind, transformation kind, dim, target family)".into();
     report.assumptions.push("volume preservation is checked in whitened (y, v) coordinates for Euclidean and ExactNormal kinds only; the isokinetic ESH map lives on the unit sphere and is checked against its closed form instead".into());
     if let Some(r) = &args.replay {
         let seed = r["seed"].as_u64().unwrap();
         let idx = r["idx"].as_u64().unwrap();
-        if r.get("volume").is_some() {
+        if r.get("adapted").is_some() {
+            adapted_case(report, seed, idx)
+        } else if r.get("volume").is_some() {
             volume_case(report, seed, idx)
         } else if r.get("order").is_some() {
             order_case(report, seed, idx)
@@ -524,6 +648,8 @@ pub fn run(args: &Args, report: &mut Report) {
     let n_exact = report.size(800, 40_000);
     let n_vol = report.size(600, 30_000);
     let seed = args.seed ^ 0xC02;
+    let n_adapted = report.size(180, 6000);
+    crate::report::par_run(report, n_adapted, |i, rep| adapted_case(rep, seed, i));
     crate::report::par_run(report, n + n_order + n_exact + n_vol, |i, rep| {
         if i < n {
             let c = gen_case(seed, i);
